@@ -528,9 +528,12 @@ def fake_cbc_main(args):
         tl = float(args[args.index("-sec") + 1])
     gap_abs = float(args[args.index("-allow") + 1]) if "-allow" in args else 0.0
     gap_rel = float(args[args.index("-ratio") + 1]) if "-ratio" in args else 0.0
-    for opt in ("-maxN", "-maxNodes", "-maxSolutions", "-maxSol"):
+    for opt in ("-maxN", "-maxNodes", "-maxSolutions", "-maxSol", "-maxSo"):
         if opt in args:
-            raise HarnessError("FakeCBC: back-end option %s is not modelled" % opt)
+            # a node / solution limit: the back end may stop at ANY feasible point
+            # (CBC then says "Stopped on nodes - objective value ...", which PuLP
+            # reports as Optimal): every feasible class is an admissible answer
+            gap_abs = float(INF)
     with open(mps) as f:
         text = f.read()
     k = len(CTX.solves)
